@@ -206,7 +206,30 @@ func c20Erase(c *Ctx, r *Report) {
 		return
 	}
 	info := p.TypesInfo
-	if fi := c.MustFunc(r, rule, multitermPkg, "(*TermWriter).writeAtCursor"); fi != nil {
+	// the method(s) of TermWriter that put the text on the terminal (writeAtCursor, or WriteForLine itself
+	// when the helper was folded into it)
+	var writers []*FuncInfo
+	writerObjs := map[*types.Func]bool{}
+	for _, fi := range c.AllFuncDecls(multitermPkg) {
+		if fi.Pkg.PkgPath != multitermPkg || fi.Decl.Recv == nil || recvTypeName(fi.Decl.Recv.List[0].Type) != "TermWriter" {
+			continue
+		}
+		direct := false
+		inspectNoLit(fi.Decl.Body, func(x ast.Node) bool {
+			if ce, ok := x.(*ast.CallExpr); ok && calleeName(info, ce) == multitermPkg+".WriteLineNoWrap" {
+				direct = true
+			}
+			return true
+		})
+		if direct {
+			writers = append(writers, fi)
+			writerObjs[fi.Obj] = true
+		}
+	}
+	if len(writers) == 0 {
+		r.Undecided(rule, multitermPkg+".TermWriter", "text writer", "-", "no method of TermWriter writes a line through WriteLineNoWrap: the clause cannot be decided")
+	}
+	for _, fi := range writers {
 		fg := NewFGraph(fi.Decl.Body, info)
 		writeNode := -1
 		for _, nd := range fg.Nodes {
@@ -281,12 +304,16 @@ func c20Erase(c *Ctx, r *Report) {
 				switch calleeName(info, ce) {
 				case "(*" + multitermPkg + ".TermWriter).goTo":
 					g = nd.ID
-				case "(*" + multitermPkg + ".TermWriter).writeAtCursor":
+				case multitermPkg + ".WriteLineNoWrap":
 					w = nd.ID
+				default:
+					if f := calleeFunc(info, ce); f != nil && writerObjs[f.Origin()] {
+						w = nd.ID
+					}
 				}
 			}
 		}
-		r.Check(g >= 0 && w >= 0 && fg.Dominates(g, w), rule, fi.Name, "goTo before writeAtCursor", c.Pos(fi.Decl.Pos()), "order: the cursor is moved to the line before the text is written", "text is written without first moving to its line")
+		r.Check(g >= 0 && w >= 0 && fg.Dominates(g, w), rule, fi.Name, "goTo before the text is written", c.Pos(fi.Decl.Pos()), "order: the cursor is moved to the line before the text is written", "text is written without first moving to its line")
 	}
 	if fi := c.MustFunc(r, rule, multitermPkg, "(*TermWriter).Close"); fi != nil {
 		vi := analyseVars(info, fi.Decl)
